@@ -78,7 +78,7 @@ def _iter_discipline(loop: ast.AST, lst: str) -> Optional[str]:
         if isinstance(it, ast.Call) and call_name(it) == "reversed" and len(it.args) == 1 \
                 and isinstance(it.args[0], ast.Name) and it.args[0].id == lst:
             return "backward"
-        if isinstance(it, ast.Call) and call_name(it) in ("list", "tuple", "iter") and len(it.args) == 1:
+        if isinstance(it, ast.Call) and call_name(it) in ("list", "tuple", "iter", "from_iterable") and len(it.args) == 1:
             inner = ast.For(target=loop.target, iter=it.args[0], body=loop.body, orelse=[])
             return _iter_discipline(inner, lst)
         if isinstance(it, ast.Subscript) and isinstance(it.value, ast.Name) and it.value.id == lst \
@@ -126,9 +126,83 @@ def _compensated(fn, cfg, fnode, is_hist_list, param_mutators) -> bool:
     return False
 
 
+def _builtin_exc(name: str):
+    import builtins
+    o = getattr(builtins, name, None)
+    return o if isinstance(o, type) and issubclass(o, BaseException) else None
+
+
+def _exc_roots(idx, qual: str, seen=None) -> Set[str]:
+    """names of the builtin exception classes a class of the tree derives from"""
+    seen = seen or set()
+    if qual in seen:
+        return set()
+    seen.add(qual)
+    c = idx.classes.get(qual)
+    out: Set[str] = set()
+    if c is None:
+        return out
+    for be, b in zip(c.base_exprs, c.bases):
+        if b and b in idx.classes:
+            out |= _exc_roots(idx, b, seen)
+        elif isinstance(be, ast.Name) and _builtin_exc(be.id):
+            out.add(be.id)
+        elif isinstance(be, ast.Attribute) and _builtin_exc(be.attr):
+            out.add(be.attr)
+    return out
+
+
+def _raised_exception_classes(idx) -> Dict[str, str]:
+    """exception classes of the tree that rope/base raises explicitly: qualname -> where"""
+    out: Dict[str, str] = {}
+    for f in idx.functions.values():
+        if not f.unit.modname.startswith("rope.base."):
+            continue
+        for r in common.explicit_raises(f.node):
+            e = r.exc.func if isinstance(r.exc, ast.Call) else r.exc
+            q = idx.resolve(f.unit.modname, e) if e is not None else None
+            if q and q in idx.classes and _exc_roots(idx, q):
+                out.setdefault(q, f"{f.unit.rel}:{r.lineno}")
+    return out
+
+
+def _handler_catches(h: ast.ExceptHandler) -> Optional[List[str]]:
+    """builtin class names a handler catches; None = not decidable (non-builtin names)"""
+    if h.type is None:
+        return ["BaseException"]
+    ts = h.type.elts if isinstance(h.type, ast.Tuple) else [h.type]
+    names = []
+    for t in ts:
+        if isinstance(t, ast.Name) and _builtin_exc(t.id):
+            names.append(t.id)
+        else:
+            return None
+    return names
+
+
+def _breadth_rule(idx, res, name: str, f, h: ast.ExceptHandler, raised: Dict[str, str]) -> None:
+    """R10.8: the rollback handler catches every exception class of the tree that rope/base raises (the task stop included)"""
+    catches = _handler_catches(h)
+    if catches is None:
+        res.undecided("R10.8", name, f"{f.unit.rel}:{h.lineno}", f"handler type {ast.unparse(h.type)} is not a builtin exception class")
+        return
+    missed = []
+    for q, where in sorted(raised.items()):
+        roots = _exc_roots(idx, q)
+        if not any(issubclass(_builtin_exc(r), _builtin_exc(c)) for r in roots for c in catches):
+            missed.append((q, where, sorted(roots)))
+    res.add("R10.8", name, not missed, f"{f.unit.rel}:{h.lineno}",
+            f"the handler ({', '.join(catches)}) catches all {len(raised)} exception classes rope/base raises" if not missed else
+            f"the rollback handler catches {', '.join(catches)} but {missed[0][0]} (raised at {missed[0][1]}) derives from {missed[0][2]}: when "
+            "performing fails with it (a stopped task, a refused file operation) the handler is skipped and the applied sub-changes stay applied",
+            function=f.qualname, catches=catches, missed=[m[0] for m in missed])
+
+
 def check(ctx, res) -> None:
     idx = ctx.idx
     comp = common.composite_change(idx)
+    raised = _raised_exception_classes(idx)
+    res.floor("R10.8", "exception classes raised in rope/base", len(raised), 5)
     rel = comp.unit.rel
 
     # ---------------- R10.1 / R10.2 / R10.3 on every rollback try in rope/base
@@ -164,6 +238,7 @@ def check(ctx, res) -> None:
                     "every path out of the rollback handler raises" if ok else
                     "a path leaves the rollback handler without raising: the failure is swallowed",
                     function=f.qualname)
+            _breadth_rule(idx, res, name, f, h, raised)
             # R10.7 the compensating calls must not be interruptible by the task whose stop may be the failure
             # being rolled back: they must not receive the enclosing method's job-set parameter.
             fparams = {a.arg for a in f.node.args.args[1:]} | {a.arg for a in f.node.args.kwonlyargs}
@@ -330,6 +405,14 @@ def check(ctx, res) -> None:
             res.ok("R10.5", construct, m.where,
                    f"{len(muts)} history-list mutation(s) all lie after the fallible call of their iteration",
                    function=m.qualname)
+        # R10.8 on the compensating handlers of this method
+        for t in walk_local(m.node):
+            if isinstance(t, ast.Try):
+                for h in t.handlers:
+                    if any(isinstance(x, ast.stmt) and any(is_hist_list(e) for e in common.mutated_exprs(x)) or
+                           (isinstance(x, ast.Call) and is_self_attr(x.func) and x.func.attr in param_mutators)
+                           for st in h.body for x in [st, *ast.walk(st)]):
+                        _breadth_rule(idx, res, construct, m, h, raised)
         # R10.6
         sets = [n for n in cfg.nodes if n.kind == "stmt" and isinstance(n.ast, ast.Assign)
                 and any(is_self_attr(t, "current_change") for t in n.ast.targets)]
